@@ -47,6 +47,29 @@ func (x *Exec) newEnv(st *State, fr *Frame, binds map[string]SV) *specEnv {
 	return &specEnv{x: x, st: st, old: f.entry, fr: f, binds: binds, loop: f.curLoop}
 }
 
+// evalLemma evaluates an auxiliary clause; ok is false where it cannot be stated (a local it
+// mentions has no value on this path), in which case the path simply goes without it.
+func (x *Exec) evalLemma(st *State, fr *Frame, cl *Clause, binds map[string]SV) (string, bool) {
+	e := x.newEnv(st, fr, binds)
+	v := e.eval(cl.Expr)
+	if e.err != nil {
+		return "", false
+	}
+	tv, ok := v.V.(TV)
+	if !ok || tv.S != SBool {
+		return "", false
+	}
+	for _, f := range e.facts {
+		if !strings.Contains(f, "q_") {
+			st.assume(f)
+		}
+	}
+	for _, a := range e.axioms {
+		st.assume(a)
+	}
+	return tv.E, true
+}
+
 // evalClause evaluates a boolean clause to an SMT term.
 func (x *Exec) evalClause(st *State, fr *Frame, cl *Clause, binds map[string]SV) string {
 	e := x.newEnv(st, fr, binds)
